@@ -11,8 +11,11 @@
    ("backend-mismatch"), or an op of the history panicked (C04_striped_history: none may).
    DIFF: the observation differs from the extracted model's (matrix, len, wrap,
    Index results incl. panics, counts) although the property checker passed.
-   The model is run through step2 (PadHistory.v): configure / configure_wrap / Index /
+   The model is run through step3 (PliT.v): the provided Stripe::stripe / stripe_into are the TRANSLATED
+   statement lists of pli/mod.rs (PliT.v over GenPli.v), configure / configure_wrap / Index /
    count_symbol(s) are the TRANSLATED statement lists of seq.rs (SeqT.v over GenSeq.v);
+   `cl` (Clone) is the identity on the state, `fe` (From<EncodedSequence>) = to_striped with the forced arm,
+   `vm` (DenseMatrix::from + StripedSequence::new) keeps the matrix and resets wrap;
    `sm` ops take the stream of draws from the observation (oracle), `nw` ops the matrix
    from the input; after them the padding is arbitrary and check_C04_pad decides. *)
 open Stripe_model
@@ -59,7 +62,7 @@ let backend_of = function
   | "nn" -> (match disp_stripe_arm NNeon with KGeneric -> BGeneric | KAvx2 -> failwith "arm table: Neon arm names a kernel that cannot be replayed")
   | b -> failwith ("bad backend " ^ b)
 
-type rawop = R1 of op | RSample of int | RNew of nat list list * int
+type rawop = R1 of op | RSample of int | RNew of nat list list * int | RClone | RFromEnc of arm * nat list | RVia
 
 let parse_op c s : rawop =
   match String.split_on_char ':' s with
@@ -73,6 +76,12 @@ let parse_op c s : rawop =
   | ["cw"; k] -> R1 (OConfigureWrap (nat_of_int (int_of_string k)))
   | ["sm"; _; n] -> RSample (int_of_string n)
   | ["nw"; n; rows] -> RNew (matrix_of_string rows, int_of_string n)
+  | ["cl"] -> RClone
+  | ["vm"] -> RVia
+  | ["fe"; b; q] ->
+      (match backend_of b with
+       | BDispatch a -> RFromEnc (a, seq_of_string q)
+       | _ -> failwith "From<EncodedSequence> only exists through the dispatching pipeline")
   | _ -> failwith ("bad op " ^ s)
 
 let show_res_sym = function
@@ -120,9 +129,12 @@ let () =
                 let fields = String.split_on_char '|' ob in
                 let extra = (match fields with [_; _; _; _; _; _; _; _; _; x] -> x | _ -> "-") in
                 (* complete the op with the stream oracle of the observation *)
-                let o2 = (match ro with
-                  | R1 o -> O1 o
-                  | RNew (m, l) -> ONew (m, nat_of_int l)
+                let o3 = (match ro with
+                  | R1 o -> O2 (O1 o)
+                  | RClone -> OClone
+                  | RVia -> OViaMatrix
+                  | RFromEnc (a, q) -> OFromEnc (a, q)
+                  | RNew (m, l) -> O2 (ONew (m, nat_of_int l))
                   | RSample l ->
                       (match String.split_on_char ',' extra with
                        | [d; e] ->
@@ -131,21 +143,34 @@ let () =
                            (* EncodedSequence::sample(n) = the first n draws of the same stream *)
                            if enc <> enc_sample (fun i -> List.nth draws (int_of_nat i)) (nat_of_int l) then
                              propfail (Printf.sprintf "op%d encoded-sample is not the first %d draws" n l);
-                           OSample (draws, nat_of_int l)
-                       | _ -> if ob <> "P" then diff (Printf.sprintf "op%d no-stream-oracle" n); OSample ([], nat_of_int l))) in
-                let m' = (match !model with Ok st -> step2 kn cn st o2 | r -> r) in
-                (match o2, m' with
-                 | O1 (OStripeInto (_, q)), _ | O1 (OStripe (_, q)), _ -> last := q; pad := false
-                 | O1 _, _ -> ()
-                 | (OSample _ | ONew _), Ok _ -> last := seq_after1 kn cn !last o2; pad := true
-                 | _, _ -> ());
+                           O2 (OSample (draws, nat_of_int l))
+                       | _ -> if ob <> "P" then diff (Printf.sprintf "op%d no-stream-oracle" n); O2 (OSample ([], nat_of_int l)))) in
+                let before = !model in
+                let m' = (match before with Ok st -> step3 kn cn st o3 | r -> r) in
+                (* the op2 the op amounts to (ONew of the current matrix for vm) *)
+                let o2 = (match o3, before with
+                  | O2 o, _ -> o
+                  | OFromEnc (a, q), _ -> O1 (OStripe (BDispatch a, q))
+                  | OViaMatrix, Ok st -> ONew (st.mat, st.slen)
+                  | _, _ -> O1 (OConfigureWrap O)) in
+                (match o3, before, m' with
+                 | O2 (O1 (OStripeInto (_, q))), _, _ | O2 (O1 (OStripe (_, q))), _, _ | OFromEnc (_, q), _, _ -> last := q; pad := false
+                 | O2 (O1 _), _, _ | OClone, _, _ -> ()
+                 | O2 (OSample _ | ONew _), _, Ok _ -> last := seq_after1 kn cn !last o2; pad := true
+                 (* DenseMatrix::from + new: the identity without look-ahead rows (C04_conversions_spec); with
+                    look-ahead rows they become sequence rows and the logical sequence is re-read *)
+                 | OViaMatrix, Ok st, Ok _ ->
+                     if st.swrap <> O then begin last := seq_after3_1 kn cn !last st o3; pad := true end
+                 | _, _, _ -> ());
                 if ob = "E" then begin
                   (* StripedSequence::new returned Err(InvalidData): the buffer is unchanged *)
                   (match m' with
                    | Err _ -> ()
                    | _ -> (match o2 with
                            | ONew (m, l) when List.length m * c >= int_of_nat l && List.for_all (fun r -> List.length r = c) m ->
-                               propfail (Printf.sprintf "op%d new rejects a matrix that holds the sequence" n)
+                               propfail (Printf.sprintf "op%d new rejects a matrix that holds the sequence" n);
+                               (* vm took the buffer before new failed *)
+                               (match o3 with OViaMatrix -> model := Ok s_default | _ -> ())
                            | _ -> diff (Printf.sprintf "op%d Err but the model succeeds" n)));
                   walk (n + 1) orest obrest
                 end else begin
